@@ -97,7 +97,7 @@ func initAllowed(path string) bool {
 	case "errors", "io", "bytes", "encoding/binary", "strconv", "sort", "math", "unicode/utf8", "container/list", "container/heap",
 		"encoding/hex", "github.com/syndtr/goleveldb/leveldb/errors",
 		"github.com/syndtr/goleveldb/leveldb/util", "github.com/syndtr/goleveldb/leveldb/comparer", "github.com/laizy/bigint",
-		"github.com/ethereum/go-ethereum/common":
+		"github.com/ethereum/go-ethereum/common", "github.com/itchyny/base58-go":
 		return true
 	}
 	return false
